@@ -387,7 +387,8 @@ class error_997_visitor(error_visitor.error_visitor):
             if err_cde in valid_AK4_codes:
                 seg_data = pyx12.segment.Segment(seg_str, '~', '*', ':')
                 seg_data.set('AK403', err_cde)
-                if bad_value:
+                if bad_value and not [t for t in (self.seg_term, self.ele_term, self.subele_term) if t in bad_value]:
+                    # a copy that contains one of our own delimiters would add or split elements
                     seg_data.set('AK404', bad_value)
                 self._write(seg_data)
 
